@@ -40,7 +40,7 @@ def ENCODED():
 
 
 def cases(tier, seed):
-    out = ["hdd_tidd_cdd_smooth/lemma"]
+    out = ["hdd_tidd_cdd_smooth/lemma", "hdd_tidd_cdd_smooth/rounding"]
     for s in SHAPES:
         out.append(f"{s}/single")
         out.append(f"{s}/pair")
@@ -175,10 +175,79 @@ def run_lemma(case: Case):
     case.regime("smoothing fractions normalised (sum > 1)", case.reach("n", [V["hdd_k"] + V["cdd_k"] > 1, V["hdd_k"] >= 0, V["cdd_k"] >= 0]) is not None)
 
 
+def _float_order_search(vals, tries=4000):
+    """concrete float64 search around a witness of the rounding-error model: returns inputs for which the real
+    get_smooth_coeffs returns shifted balance points in the wrong order (cdd_bp' < hdd_bp')"""
+    import random
+    from opendsm.eemeter.models.daily.utilities.base_model import get_smooth_coeffs
+    rnd = random.Random(12345)
+    a, ph, b, pc_ = (float(vals[k]) for k in ("hdd_bp", "hdd_k", "cdd_bp", "cdd_k"))
+    cands = [(a, ph, b, pc_)]
+    for _ in range(tries):
+        A = round(a + rnd.uniform(-5, 5), 3)
+        B = round(max(A + 0.001, b + rnd.uniform(-5, 5)), 3)
+        PH = round(abs(ph + rnd.uniform(-0.3, 0.3)), 3)
+        PC = round(abs(pc_ + rnd.uniform(-0.3, 0.3)), 3)
+        cands.append((A, PH, B, PC))
+    for (A, PH, B, PC) in cands:
+        if A > B or PH < 0 or PC < 0:
+            continue
+        o = get_smooth_coeffs(A, PH, B, PC)
+        if o[2] < o[0]:
+            return dict(hdd_bp=A, hdd_k=PH, cdd_bp=B, cdd_k=PC, out=[float(x) for x in o])
+    return None
+
+
+def replay_rounding(inp):
+    vals = {k: float(v) for k, v in inp["vals"].items() if k in ("hdd_bp", "hdd_k", "cdd_bp", "cdd_k")}
+    hit = _float_order_search(vals)
+    if hit is None:
+        return False, "no float64 instance found near the witness"
+    # consequence through the public API: the heating and cooling sides are swapped by full_model
+    V = dict(intercept=10.0, hdd_bp=hit["hdd_bp"], hdd_beta=2.0, hdd_k=hit["hdd_k"], cdd_bp=hit["cdd_bp"], cdd_beta=0.5, cdd_k=hit["cdd_k"],
+             T_min=hit["hdd_bp"] - 40, T_max=hit["cdd_bp"] + 40, T_min_seg=hit["hdd_bp"] - 35, T_max_seg=hit["cdd_bp"] + 35, f_unc=1.0)
+    T = hit["hdd_bp"] - 10
+    out = R.real_predict_submodel("hdd_tidd_cdd_smooth", V, [T])
+    return True, (f"get_smooth_coeffs({hit['hdd_bp']}, {hit['hdd_k']}, {hit['cdd_bp']}, {hit['cdd_k']}) = {hit['out']}: shifted cooling balance point below the heating one "
+                  f"(float rounding), full_model swaps the sides: predicted({T}) = {out['predicted'][0]} with heating slope 2.0 replaced by the cooling slope 0.5")
+
+
+REPLAY["rounding"] = replay_rounding
+
+
+def run_rounding(case: Case):
+    """get_smooth_coeffs under the standard rounding-error model of float64 (every arithmetic result times (1+e), |e| <= 2^-53):
+    the shifted balance points must keep their order, otherwise full_model swaps heating and cooling sides."""
+    from symv.proxies import rounding_model
+    V = {k: Z(k) for k in ("hdd_bp", "hdd_k", "cdd_bp", "cdd_k")}
+    case.inputs = list(V.values())
+
+    def run():
+        eng = E.cur()
+        for c in [V["hdd_bp"] <= V["cdd_bp"], V["hdd_k"] >= 0, V["cdd_k"] >= 0, V["hdd_bp"] >= -100, V["cdd_bp"] <= 200, V["hdd_k"] <= 2, V["cdd_k"] <= 2]:
+            eng.assume(c)
+        with rounding_model():
+            from symv.proxies import SReal as _S
+            r = R._get_smooth_coeffs(_S(V["hdd_bp"]), _S(V["hdd_k"]), _S(V["cdd_bp"]), _S(V["cdd_k"]))
+        return list(r)
+
+    paths = case.explore(run)
+    for p in paths:
+        rp = ("rounding", lambda m: dict(vals=model_env(m, case.inputs)))
+        if p.outcome != "ret":
+            case.prove(p, False, "get_smooth_coeffs does not raise", replay=rp)
+            continue
+        out = [z3.ToReal(lift(x)) if z3.is_int(lift(x)) else lift(x) for x in p.value]
+        case.prove(p, out[0] <= out[2], "shifted balance points keep their order under float64 rounding (rounding-error model)", replay=rp)
+    case.note("rounding-error model: fl(a op b) = (a op b)(1+e), |e| <= 2^-53, one fresh e per arithmetic result")
+
+
 def run_case(case: Case, name: str):
     shape, mode = name.split("/")
     if mode == "lemma":
         return run_lemma(case)
+    if mode == "rounding":
+        return run_rounding(case)
     nT = 1 if mode == "single" else 2
     V = R.input_vars(shape, nT)
     case.inputs = list(V.values())
